@@ -200,13 +200,16 @@ def splitClassify (align : Nat) (types : List Scalar) : PassKind :=
   .coerce2 (subType align (types.take (splitLoop types 0 0)) true)
            (subType align (types.drop (splitLoop types 0 0)) false)
 
+/-- the size ≤ 8 branch: `IntType(size*8)` unless `types[0]` and `types[1]` are both `float` -/
+def smallClassify (size : Nat) (types : List Scalar) : PassKind :=
+  match types with
+  | .f32 :: .f32 :: _ => .coerce .v2f32
+  | _ => .coerce (.int size)
+
 def getTypeInfo (size align : Nat) (types : List Scalar) : PassKind :=
   if types.length ≥ 2 then
     if size > 16 then .memory
-    else if size ≤ 8 then
-      match types with
-      | .f32 :: .f32 :: _ => .coerce .v2f32
-      | _ => .coerce (.int size)
+    else if size ≤ 8 then smallClassify size types
     else
       match types with
       | [a, b] =>
@@ -256,7 +259,7 @@ deriving DecidableEq, Repr
 
 def lowerRetV (v : View) : LRet :=
   match classifyV v true with
-  | .void => .void
+  | .void => .regs []                                   -- (unreachable: results are never AttrVoid here)
   | .direct => .regs (v.types.map Scalar.regTy)
   | .coerce r => .regs [r]
   | .coerce2 r1 r2 => .regs [r1, r2]
